@@ -236,13 +236,24 @@ Proof.
 Qed.
 
 (* ---------- literal segments ---------- *)
+Lemma ptoks_f_nometa a : has_meta a = false -> forall fuel, (length a < fuel)%nat -> ptoks_f fuel a = Some (map PLit a).
+Proof.
+  induction a as [|c a IH]; intros Hm fuel Hf; (destruct fuel as [|fuel]; [inversion Hf|]); cbn [ptoks_f map]; [reflexivity|].
+  cbn [has_meta existsb] in Hm. apply orb_false_iff in Hm. destruct Hm as [Hc Hm].
+  unfold is_meta in Hc. rewrite !orb_false_iff in Hc. destruct Hc as ((((C1 & C2) & C3) & C4) & C5).
+  cbn [length] in Hf. rewrite (IH Hm fuel) by (apply Nat.succ_lt_mono; exact Hf).
+  rewrite C1, C2, C3, C4, C5. reflexivity.
+Qed.
+Lemma tokmatch_lits a : forall n, tokmatch (map PLit a) n = true <-> n = a.
+Proof.
+  induction a as [|c a IH]; intros n; cbn [map tokmatch].
+  - destruct n; cbn; split; congruence.
+  - destruct n as [|x n]; [split; [discriminate|congruence]|].
+    rewrite andb_true_iff, N.eqb_eq, IH. split; [intros [-> ->]; reflexivity|intros H; inversion H; auto].
+Qed.
 Lemma segmatch_nometa a : has_meta a = false -> forall n, segmatch a n = true <-> n = a.
 Proof.
-  induction a as [|c a IH]; intros Hm n; cbn [segmatch].
-  - destruct n; cbn; split; congruence.
-  - cbn [has_meta existsb] in Hm. apply orb_false_iff in Hm. destruct Hm as [Hc Hm]. rewrite Hc.
-    destruct n as [|x n]; [split; [discriminate|congruence]|].
-    rewrite andb_true_iff, N.eqb_eq, (IH Hm). split; [intros [-> ->]; reflexivity|intros H; inversion H; auto].
+  intros Hm n. unfold segmatch, ptoks. rewrite (ptoks_f_nometa a Hm) by (apply Nat.lt_succ_diag_r). apply tokmatch_lits.
 Qed.
 
 Lemma tmatch_lits : forall pre dir, lits pre = Some dir -> forall t d,
@@ -393,3 +404,32 @@ Proof.
   intros W NE x. rewrite (expand_spec root W pat x NE). unfold glob_spec. rewrite filter_In, andb_true_iff, negb_true_iff, (all_paths_spec root W).
   split; [intros [H1 H2]; split; [apply (tmatch_lookup pat root x H1)|auto]|tauto].
 Qed.
+
+(* ---------- whole patterns: alternation expanded, then split into segments ---------- *)
+Lemma split_slash_nonempty cur p : split_slash cur p <> [].
+Proof. revert cur; induction p as [|c r IH]; intros cur; cbn [split_slash]; [discriminate|]. destruct (c =? 47); [discriminate|apply IH]. Qed.
+Lemma parse_pattern_nonempty p : parse_pattern p <> [].
+Proof. unfold parse_pattern. pose proof (split_slash_nonempty [] p). destruct (split_slash [] p); [contradiction|discriminate]. Qed.
+
+(* C05 for a pattern as written in the spokfile: an entry is reported iff one of the alternatives of the pattern matches its
+   relative path (reference matcher) and the path does not begin with a dot *)
+Theorem expand_pat_spec root p x : wf root ->
+  (In x (expand_pat root p) <->
+   exists q, In q (expand_alts (S (length p)) p) /\ tmatch (parse_pattern q) root x = true /\ hidden x = false).
+Proof.
+  intros W. unfold expand_pat. rewrite in_flat_map. split.
+  - intros (q & Hq & Hx). exists q. split; [exact Hq|]. apply (expand_spec root W (parse_pattern q) x (parse_pattern_nonempty q)). exact Hx.
+  - intros (q & Hq & Hx). exists q. split; [exact Hq|]. apply (expand_spec root W (parse_pattern q) x (parse_pattern_nonempty q)). exact Hx.
+Qed.
+
+Theorem expand_pat_exact root p : wf root -> forall x, In x (expand_pat root p) <-> In x (glob_spec_pat root p).
+Proof.
+  intros W x. unfold expand_pat, glob_spec_pat. rewrite !in_flat_map. split; intros (q & Hq & Hx); exists q; (split; [exact Hq|]);
+    apply (expand_exact root (parse_pattern q) W (parse_pattern_nonempty q)); exact Hx.
+Qed.
+
+(* a pattern without braces is its own only alternative *)
+Lemma find_open_none p : forall pre, existsb (fun c => c =? 123) p = false -> find_open p pre = None.
+Proof. induction p as [|c r IH]; intros pre H; cbn [find_open]; [reflexivity|]. cbn [existsb] in H. apply orb_false_iff in H. destruct H as [-> H]. apply IH. exact H. Qed.
+Lemma expand_alts_plain p fuel : existsb (fun c => c =? 123) p = false -> expand_alts (S fuel) p = [p].
+Proof. intros H. cbn [expand_alts]. rewrite (find_open_none p [] H). reflexivity. Qed.
